@@ -175,6 +175,31 @@ def is_extension(cfg):
     return False
 
 
+_COND_OPS = {"eq", "noteq", "lt", "lte", "gt", "gte", "is", "isnot", "in", "notin", "not", "add", "sub", "mult", "div", "mod", "pow", "lshift", "rshift",
+             "bitor", "bitxor", "bitand", "floordiv", "matmult", "usub", "uadd", "invert", "getitem", "getattr", "slice"}
+
+
+def _user_term(v):
+    """Terms built only from operand values and Python operators (conditions a script can observe)."""
+    if isinstance(v, Sym):
+        return bool(v.tag) and v.tag[0] in ("val", "item", "var")
+    if isinstance(v, Const):
+        return True
+    if isinstance(v, App):
+        if v.op == "res" and v.args and v.args[0] == Const("call_func"):
+            return True  # result of a call made by the script (e.g. __exit__ deciding about suppression)
+        return v.op in _COND_OPS and all(_user_term(a) for a in v.args)
+    return False
+
+
+def conditions(cfg):
+    out = []
+    for atom, val in cfg.assume:
+        if isinstance(atom, tuple) and len(atom) == 2 and atom[0] == "truth" and _user_term(atom[1]) and not isinstance(atom[1], Const):
+            out.append((canon(atom[1]), val))
+    return tuple(sorted(out, key=repr))
+
+
 def _flow(v):
     if isinstance(v, Sym) and v.tag and v.tag[0] == "val" and len(v.tag) > 2 and v.tag[2] is not None:
         return ("flow", v.tag[2], v.tag[1])
@@ -194,7 +219,7 @@ def path_set(out: Out, ref=False, with_result=True):
                     res = _flow(c.env.get("$ret", NONE))
                 else:
                     res = ("flow", None)
-                key = (canon_events(c.trace, ref=ref), res)
+                key = (canon_events(c.trace, ref=ref), res, conditions(c))
                 ext = (not ref) and is_extension(c)
                 if key not in paths or (paths[key] and not ext):
                     paths[key] = ext
@@ -208,7 +233,11 @@ def path_set(out: Out, ref=False, with_result=True):
                 res = ("value", canon(c.env.get("$ret", NONE)))
             else:
                 res = ("done",)
-            key = (canon_events(c.trace, ref=ref), res)
+            conds = conditions(c)
+            if res[0] == "value":
+                # an extra truth test of the value that is returned anyway is unobservable for the quantified value kinds
+                conds = tuple(cv for cv in conds if cv[0] != res[1])
+            key = (canon_events(c.trace, ref=ref), res, conds)
             ext = (not ref) and is_extension(c)
             if key not in paths or (paths[key] and not ext):
                 paths[key] = ext
@@ -216,7 +245,8 @@ def path_set(out: Out, ref=False, with_result=True):
 
 
 def fmt_path(p):
-    ev, res = p
+    ev, res = p[0], p[1]
+    conds = p[2] if len(p) > 2 else ()
     parts = []
     for e in ev:
         if e[0] == "eval":
@@ -227,7 +257,8 @@ def fmt_path(p):
             parts.append(f"store {e[1]}:={_short(e[2])}")
         else:
             parts.append(_short(e))
-    return "[" + ", ".join(parts) + "] -> " + _short(res)
+    cs = (" when " + " and ".join(("" if v else "not ") + _short(c, 60) for c, v in conds)) if conds else ""
+    return "[" + ", ".join(parts) + "] -> " + _short(res) + cs
 
 
 def _short(x, n=110):
